@@ -90,7 +90,7 @@ pub mod verif
             if st.timestamp == 1_000_000u64 * (f.ws[i].mtime as u64)
             {
                 assert!(st.ticket == ticket_of_content(f.ws[i].content),
-                    "[C18][C01] file-state table entry written back pairs the file's mtime with a hash that is not the file's");
+                    "[C18][C07][C01] file-state table entry written back pairs the file's mtime with a hash that is not the file's");
             }
             i += 1;
         }
@@ -390,7 +390,7 @@ pub mod verif
                         "[C01][C03][C18] hash handed to dependents after a rebuild is not the hash of the target's content");
                     let st = crate::blob::verif::blob_state(&result.blob, i);
                     assert!(st.ticket == ticket_of_content(pre.out[i]) && st.timestamp == 1_000_000u64 * ((if i == 0 { pre.fresh } else { pre.fresh2 }) as u64),
-                        "[C18][C01] file-state table entry written back after a rebuild is not (hash, mtime) of the new file");
+                        "[C18][C07][C01] file-state table entry written back after a rebuild is not (hash, mtime) of the new file");
                     assert!(st.executable == f.ws[i].exec, "[C10] file-state table entry does not record the executable bit");
                     i += 1;
                 }
@@ -552,7 +552,8 @@ pub mod verif
         let blob = blob_of(&pre);
         let dl = Some(DownloaderCache::new(vec![]));
         let r = resolve_with_cache(&mut sys, &mut cache, &dl, &h, &None, &sources_ticket(), &blob);
-        assert_monitors(other_before);
+        /*  (the generic monitors are asserted at the END: an assertion that fails cuts the path, and this
+            harness's own clauses must not be hidden behind another property's monitor) */
         let f = fs();
         match r
         {
@@ -579,6 +580,7 @@ pub mod verif
             },
         }
         assert!(f.n_exec == 0, "[C10] a command ran");
+        assert_monitors(other_before);
         std::mem::forget(h);
         std::mem::forget(blob);
     }
